@@ -171,12 +171,15 @@ def _grid(ctx: Ctx) -> typing.Iterable[typing.Any]:
     for n in variants:
         yield {"kind": "union", "n": n, "first": ["bool"]}
         yield {"kind": "union", "n": n, "first": ["var", ["uint", 7, "sat"], 3]}
+    # constants are attributes but not variants: they must not influence the tag width
+    for n, c in ((200, 57), (255, 1), (255, 2), (256, 1), (2, 255), (128, 128)):
+        yield {"kind": "union", "n": n, "consts": c, "first": ["uint", 8, "sat"]}
 
 
 def check_grid(case: typing.Any, ctx: Ctx) -> Info:
     if case["kind"] == "union":
         n = case["n"]
-        spec = ["union", [["v0", case["first"]]] + [["v%d" % i, ["uint", (i % 64) + 1, "sat"]] for i in range(1, n)]]
+        spec = ["union", [["v0", case["first"]]] + [["v%d" % i, ["uint", (i % 64) + 1, "sat"]] for i in range(1, n)], case.get("consts", 0)]
     else:
         spec = case["spec"]
     spec = layout.freeze(spec)
